@@ -799,6 +799,57 @@ def sanitize_plain(plan):
     return plan
 
 
+# symbol classes that cannot occur in a layout this check judges, with the reason
+NOT_DRAWN = {
+    'LogicSymbol': 'base class', 'VirtualSymbol': 'base class of the markers', 'BinaryOperatorSymbol': 'base class of Add/Sub/Mul symbols',
+    'InOutPortSymbol': 'blocks with inout ports are not exported (BidirWire is outside the modelled netlist)',
+    'MissingConnectionSymbol': 'only for undriven wires = outside the premise (stream random-undriven: termination only)',
+}
+ALWAYS_DRAWN = ['InPortSymbol', 'OutPortSymbol', 'InstanceSymbol', 'PassthroughSymbol', 'FeedbackStartSymbol', 'FeedbackStopSymbol']
+
+
+def symbol_class_stream(res, B):
+    """one small block per logic class that has a symbol of its own (Schematic.mapping, read from the real class) and per
+    optional-port variant of it, plus the multi-port classes drawn with the generic InstanceSymbol.  The symbol classes are
+    enumerated from the module: a class nobody draws, or a mapped logic class without a plan, is reported.
+    -> set of symbol class names that must appear in validated layouts"""
+    import inspect
+    import py4hw
+    import py4hw.schematic_symbols as S
+    from py4hw.schematic import Schematic
+    try:
+        hw = py4hw.HWSystem()
+        a = hw.wire('a', 1)
+        blk = G._Sub2(hw, 'x', a, a, hw.wire('x', 1), hw.wire('y', 1))
+        with contextlib.redirect_stdout(io.StringIO()):
+            Schematic(blk, placeAndRoute=False)          # fills Schematic.mapping
+    except Exception as e:
+        res.broken.append(('coverage', 'symbol-classes', f'cannot read Schematic.mapping: {e}'))
+        return set()
+    mapping = {k.__name__: v.__name__ for k, v in Schematic.mapping.items()}
+    required = set(ALWAYS_DRAWN)
+    for lcls, scls in sorted(mapping.items()):
+        kinds = G.CLASS_KINDS.get(lcls)
+        if not kinds:
+            res.broken.append(('coverage', 'symbol-classes', f'logic class {lcls} is drawn with {scls} but harness/c18_designs.CLASS_KINDS has no netlist for it'))
+            continue
+        required.add(scls)
+        for k in kinds:
+            for pl in G.single_kind_plans(k):
+                B.add(pl, 'symbol-classes')
+    for k in G.GENERIC_KINDS:
+        for pl in G.single_kind_plans(k):
+            B.add(pl, 'symbol-classes')
+    for name, c in inspect.getmembers(S, inspect.isclass):
+        if c.__module__ != S.__name__ or not issubclass(c, S.LogicSymbol):
+            continue
+        if name not in required and name not in NOT_DRAWN:
+            res.broken.append(('coverage', 'symbol-classes', f'symbol class {name} of schematic_symbols.py is neither mapped to a logic class '
+                                                            f'nor known to this check: no netlist draws it'))
+    res.cov['symbol_mapping'] = mapping
+    return required
+
+
 def main(res, tier, rng, replay):
     ok, metas, errors, changed = regenerate()
     for e in errors:
@@ -828,6 +879,9 @@ def main(res, tier, rng, replay):
                     B.add(json.load(open(os.path.join(cdir, fn))), 'corpus')
                 except Exception as e:
                     res.hist('corpus_errors', fn)
+
+    # ---- every symbol class of schematic_symbols.py, enumerated from the module, with every optional-port variant of its logic class
+    required = symbol_class_stream(res, B)
 
     # ---- every structural block of the library (and every structural block inside it) at sampled widths / arities
     lib = G.library_cases(rng, tier)
@@ -864,7 +918,7 @@ def main(res, tier, rng, replay):
             res.hist('random_cut_by_time', n_plain - i)
             break
         r = rng.fork(('plain', i))
-        plan = sanitize_plain(G.random_plan(r, r.choice(sizes), dict(r.choice(profiles), self=0, free=0)))
+        plan = sanitize_plain(G.random_plan(r, r.choice(sizes), dict(r.choice(profiles), self=0, free=0), exclude=G.BINOP3_KINDS))
         if plan is None:
             continue
         B.add(plan, 'random-plain')
@@ -875,10 +929,21 @@ def main(res, tier, rng, replay):
     n_cls = 60 if quick else 600
     for i in range(n_cls):
         r = rng.fork(('dups', i))
-        B.add(G.random_plan(r, r.choice(sizes[:8]), {'fan': 70, 'self': 0, 'free': 0}), 'random-dupsink')
+        B.add(G.random_plan(r, r.choice(sizes[:8]), {'fan': 70, 'self': 0, 'free': 0}, exclude=G.BINOP3_KINDS), 'random-dupsink')
     for i in range(n_cls):
         r = rng.fork(('self', i))
-        B.add(G.random_plan(r, r.choice(sizes[:8]), {'fan': 0, 'self': 35, 'fb': 30, 'free': 0}), 'random-selfloop')
+        B.add(G.random_plan(r, r.choice(sizes[:8]), {'fan': 0, 'self': 35, 'fb': 30, 'free': 0}, exclude=G.BINOP3_KINDS), 'random-selfloop')
+    # Add with a carry-in (third input pin of the round symbol) among other things, otherwise outside the classes above
+    got = 0
+    for i in range(n_cls * 12):
+        if got >= n_cls:
+            break
+        r = rng.fork(('binop3', i))
+        plan = sanitize_plain(G.random_plan(r, r.choice(sizes[:8]), dict(r.choice(profiles), self=0, free=0)))
+        if plan is None or not any(nd['k'] in G.BINOP3_KINDS for nd in plan['nodes']):
+            continue
+        got += 1
+        B.add(plan, 'random-binop3')
 
     # ---- outside the premise (undriven inputs): termination only; the layout is not judged
     n_free = 40 if quick else 400
@@ -887,6 +952,11 @@ def main(res, tier, rng, replay):
         B.add(G.random_plan(r, r.choice(sizes[:8]), {'free': 15, 'self': 0}), 'random-undriven', premise_expected=False)
     B.run()
 
+    # every symbol class that can be drawn has been drawn and validated at least once in this run
+    drawn = set(res.cov['histograms'].get('symbol_classes', {}))
+    for cls in sorted(required - drawn):
+        res.broken.append(('coverage', 'symbol-classes', f'symbol class {cls} exists in schematic_symbols.py but no validated layout of this run contains it'))
+    res.cov['symbol_classes_required'] = sorted(required)
     res.cov['max_pnr_seconds'] = round(B.tmax, 3)
     res.cov['pnr_budget_seconds'] = BUDGET_S
     res.cov['rule'] = ('one case = one distinct structural block (netlist signature) whose real Schematic(obj, placeAndRoute=True) result was '
